@@ -1,10 +1,12 @@
 (* GridModel.v — executable model of grid evaluation (C17), polymorphic in [Arith]. No proofs in this file.
    Sources modelled, statement by statement:
      include/photospline/detail/grideval.h : splinetable::grideval
-     src/fitter/splineutil.c               : bspline ([bspline_guarded]: since fix 33ef56f the static function drops a
+     src/fitter/splineutil.c               : bspline ([bspline_guarded]: since fix 07dbb30 the static function drops a
                                              Cox-de Boor term whose denominator vanishes; before that it was, token for
                                              token, src/core/bspline.cpp's bspline = EvalModel.bspline, which still
-                                             models the core function), bsplinebasis, slicemultiply
+                                             models the core function; since fix F30_1 it carries the flag [left] for the
+                                             side of the order-0 indicator), bsplinebasis (passes
+                                             x[row] >= knots[nsplines] as that flag), slicemultiply
      include/photospline/splinetable.h     : photospline::ndsparse (constructor checks, insertEntry)
    The n-dimensional sparse array [struct ndsparse] is what it is in the code: a list of rows (index tuple, value)
    plus the index ranges. CHOLMOD (an external library, trusted) is modelled by what its documentation states:
@@ -55,30 +57,37 @@ Definition nd_get (a : ndsparse) (g : list nat) : K :=
 Definition nd_listed (a : ndsparse) (g : list nat) : bool :=
   existsb (fun e => idx_eqb (fst e) g) (nd_entries a).
 
-(** * splineutil.c: static double bspline(knots, x, i, n)
+(** * splineutil.c: static double bspline(knots, x, i, n, left)
       double a = 0, b = 0;
-      if (n == 0) return (x >= knots[i] && x < knots[i+1]) ? 1.0 : 0.0;
-      if (knots[i+n]   != knots[i])   a = (x - knots[i])*bspline(knots, x, i, n-1) / (knots[i+n] - knots[i]);
-      if (knots[i+n+1] != knots[i+1]) b = (knots[i+n+1] - x)*bspline(knots, x, i+1, n-1) / (knots[i+n+1] - knots[i+1]);
+      if (n == 0) return (left ? (x > knots[i] && x <= knots[i+1]) : (x >= knots[i] && x < knots[i+1])) ? 1.0 : 0.0;
+      if (knots[i+n]   != knots[i])   a = (x - knots[i])*bspline(knots, x, i, n-1, left) / (knots[i+n] - knots[i]);
+      if (knots[i+n+1] != knots[i+1]) b = (knots[i+n+1] - x)*bspline(knots, x, i+1, n-1, left) / (knots[i+n+1] - knots[i+1]);
       return a + b;
-    C's [p != q] on doubles is [negb (eqbK p q)] (true when either is NaN, false for +0 against -0). *)
-Fixpoint bspline_guarded (kn : Z -> K) (n : nat) (x : K) (i : Z) : K :=
+    C's [p != q] on doubles is [negb (eqbK p q)] (true when either is NaN, false for +0 against -0).
+    [left = false] is the function as it was before fix F30_1 (right-continuous everywhere). *)
+Fixpoint bspline_guarded (kn : Z -> K) (left : bool) (n : nat) (x : K) (i : Z) : K :=
   match n with
-  | O => if geb x (kn i) && ltb x (kn (i + 1)%Z) then one else zero
+  | O => if (if left then gtb x (kn i) && leb x (kn (i + 1)%Z) else geb x (kn i) && ltb x (kn (i + 1)%Z)) then one else zero
   | S n1 =>
       let nz := Z.of_nat n in
       add (if eqbK (kn (i + nz)%Z) (kn i) then zero
-           else div (mul (sub x (kn i)) (bspline_guarded kn n1 x i)) (sub (kn (i + nz)%Z) (kn i)))
+           else div (mul (sub x (kn i)) (bspline_guarded kn left n1 x i)) (sub (kn (i + nz)%Z) (kn i)))
           (if eqbK (kn (i + nz + 1)%Z) (kn (i + 1)%Z) then zero
-           else div (mul (sub (kn (i + nz + 1)%Z) x) (bspline_guarded kn n1 x (i + 1)%Z))
+           else div (mul (sub (kn (i + nz + 1)%Z) x) (bspline_guarded kn left n1 x (i + 1)%Z))
                     (sub (kn (i + nz + 1)%Z) (kn (i + 1)%Z)))
   end.
 
 (** * bsplinebasis(knots, nknots, x, npts, order): npts rows, nsplines = nknots-order-1 columns,
-      entry (row, col) = bspline(knots, x[row], col, order) *)
+      entry (row, col) = bspline(knots, x[row], col, order, x[row] >= knots[nsplines])
+    (C's [x >= k] is [geb x k]: false when unordered, so a NaN abscissa takes the right-continuous branch) *)
 Definition nsplines (d : @dimn A) : nat := Z.to_nat (d_nknots d - Z.of_nat (d_order d) - 1).
+Definition basis_left (d : dimn) (x : K) : bool := geb x (d_kn d (Z.of_nat (nsplines d))).
 Definition basis_matrix (d : dimn) (xs : list K) : list (list K) :=
-  map (fun x => map (fun col => bspline_guarded (d_kn d) (d_order d) x (Z.of_nat col)) (seq 0 (nsplines d))) xs.
+  map (fun x => map (fun col => bspline_guarded (d_kn d) (basis_left d x) (d_order d) x (Z.of_nat col)) (seq 0 (nsplines d))) xs.
+(* bsplinebasis as it was before fix F30_1: bspline(knots, x[row], col, order) right-continuous everywhere. Not used by
+   the model of the current code; the object of C17_refuted_right_continuous_basis (former finding D30). *)
+Definition basis_matrix_rc (d : dimn) (xs : list K) : list (list K) :=
+  map (fun x => map (fun col => bspline_guarded (d_kn d) false (d_order d) x (Z.of_nat col)) (seq 0 (nsplines d))) xs.
 Definition mget (m : list (list K)) (r c : nat) : K := nth c (nth r m []) zero.
 
 (** * slicemultiply(a, b, dim) with bt = transpose(b) given as the list of its rows [bt] (npts rows) and
@@ -166,24 +175,26 @@ Definition grideval (t : table) (grids : list (list K)) : grid_result :=
   else GOk (grid_loop 0 (dims t) grids (initial_nd t)).
 
 (** * the specification: sum over ALL coefficients of coefficient times the product over dimensions of the
-      right-continuous Cox–de Boor function *)
-Fixpoint tensor_sum_rc (cf : Z -> K) (ds : list dimn) (xs : list K) (pos : Z) (pr : K) : K :=
+      Cox–de Boor function taken with the one-sided convention of the evaluation properties ([BSpline.side_of]:
+      right-continuous below knots[naxes], left-continuous from there upwards). It is [BSpline.spline_spec] without the
+      skipping of vanishing factors (C17_Proofs.grid_is_spline_spec). *)
+Fixpoint tensor_sum_grid (cf : Z -> K) (ds : list dimn) (xs : list K) (pos : Z) (pr : K) : K :=
   match ds, xs with
   | d :: ds', x :: xs' =>
-      sum_range (fun i => tensor_sum_rc cf ds' xs' (pos + i * d_stride d) (mul pr (Bfun (d_kn d) true (d_order d) i x)))
+      sum_range (fun i => tensor_sum_grid cf ds' xs' (pos + i * d_stride d) (mul pr (Bfun (d_kn d) (side_of d x) (d_order d) i x)))
                 0 (Z.to_nat (d_naxes d))
   | _, _ => mul pr (cf pos)
   end.
-Definition grid_spec (t : table) (xs : list K) : K := tensor_sum_rc (coef t) (dims t) xs 0 one.
+Definition grid_spec (t : table) (xs : list K) : K := tensor_sum_grid (coef t) (dims t) xs 0 one.
 (* the same with every term replaced by its absolute value: the scale of the measured rounding bound *)
-Fixpoint tensor_abs_rc (cf : Z -> K) (ds : list dimn) (xs : list K) (pos : Z) (pr : K) : K :=
+Fixpoint tensor_abs_grid (cf : Z -> K) (ds : list dimn) (xs : list K) (pos : Z) (pr : K) : K :=
   match ds, xs with
   | d :: ds', x :: xs' =>
-      sum_range (fun i => tensor_abs_rc cf ds' xs' (pos + i * d_stride d) (mul pr (absK (Bfun (d_kn d) true (d_order d) i x))))
+      sum_range (fun i => tensor_abs_grid cf ds' xs' (pos + i * d_stride d) (mul pr (absK (Bfun (d_kn d) (side_of d x) (d_order d) i x))))
                 0 (Z.to_nat (d_naxes d))
   | _, _ => mul pr (absK (cf pos))
   end.
-Definition grid_abs (t : table) (xs : list K) : K := tensor_abs_rc (coef t) (dims t) xs 0 one.
+Definition grid_abs (t : table) (xs : list K) : K := tensor_abs_grid (coef t) (dims t) xs 0 one.
 (* the grid point addressed by a multi-index *)
 Fixpoint grid_point (grids : list (list K)) (g : list nat) : list K :=
   match grids, g with
